@@ -160,7 +160,8 @@ def mk_depth(kind, length):
 
 
 def specs(tier):
-    out = [(MOD, f, a) for (_, f, a) in c02.specs(tier, "mk")]
+    # names of three characters are C02's subject (they cost most of its thorough tier); here only the mutual cycle keeps them
+    out = [(MOD, f, a) for (_, f, a) in c02.specs(tier, "mk") if not (tuple(a[1]) == (3, 2) and a[0] != "mutual")]
     for kind in ("refs", "inline", "array"):
         for L in ((3, 6) if tier == "quick" else (3, 6, 10, 14)):
             out.append((MOD, "mk_depth", (kind, L)))
